@@ -119,13 +119,15 @@ def srvStep (s : Srv) (args : List String) : Srv × String :=
     let c? := match code.toNat? with | some n => StatusCode.all.find? (fun (c : StatusCode) => c.num = n) | none => none
     match fd.toNat?, v?, c? with
     | some fd, some v, some c =>
-      -- builder ops used by the server suites: `b:<hex>`, `d`, `s:<hex>` joined by `;`, or `-`
+      -- builder ops used by the server suites: `b:<hex>`, `d`, `s:<hex>`, `t:plain|json` joined by `;`, or `-`
       let ops? : Option (List BuildOp) :=
         if ops == "-" then some []
         else (ops.splitOn ";").mapM fun (o : String) =>
           if o.startsWith "b:" then (unhex' (o.drop 2).toString).map BuildOp.setBody
           else if o == "d" then some .setDeprecation
           else if o.startsWith "s:" then (unhex' (o.drop 2).toString).map BuildOp.setServer
+          else if o == "t:plain" then some (.setContentType .plainText)
+          else if o == "t:json" then some (.setContentType .applicationJson)
           else none
       match ops? with
       | none => (s, "bad-op")
